@@ -1,4 +1,5 @@
 import NTV.Proofs.Lemmas.AlgLaws
+import NTV.Proofs.Lemmas.TableProofs2
 /-! # C14 — arithmetic in ℚ[x]/(f): property theorems about the model `NTV.Alg`
 
 `f : List Int` is the minimal polynomial (`Canon f`: non-zero leading coefficient; `2 ≤ f.length`:
@@ -105,5 +106,219 @@ theorem mul_pow (f : List Int) (hf : Canon f) (hn : 2 ≤ f.length) (a b : List 
   have : m = r := eq_of_reduced_of_cls_eq f hf hn m r hm hr (by rw [c4, c1, c2, c3, c0, _root_.mul_pow])
   subst this
   exact ⟨ab, as, bs, m, h0, h1, h2, h3, h4⟩
+
+end NTV.C14
+
+/-! ## C14, second sentence — the multiplication table of an order (`order.rs`, `mult_table.rs`)
+
+An order is given by its basis matrix `basis : QMat`: `n` rows of `n` rationals, the coordinates of
+ω_0, …, ω_{n−1} in the power basis 1, θ, …, θ^{n−1} of ℚ[x]/(f), `n = deg f ≥ 1`, non-singular
+(`toM n n basis` is the Mathlib matrix). `NTV.Ord.omega basis i = fromRaw (row i)` is ω_i as an element
+of `NTV.Alg` (this is `create_num`); `NTV.Ord.elt basis a` is the element `Σ_i a_i ω_i` for an integer
+coordinate vector `a` and `NTV.Ord.comb basis x` the same for rational coordinates (both canonical
+expressions of degree < n, see `elt_coef`). `NTV.Ord.IsTable f basis n t` says that `t` is `n × n × n` and that
+`ω_i ⋆ ω_j = Σ_k t[i][j][k] · ω_k`; `NTV.Ord.Closed f basis n` that every product `ω_i ⋆ ω_j` is an
+integral combination of the ω_k. Helper lemmas: `NTV.Proofs.Lemmas.TableAbs` (the algebra in the quotient
+ring), `TableProofs`, `TableProofs2` (the list-level models). -/
+namespace NTV.C14
+open NTV.Ord NTV.Alg Matrix
+open NTV.RowOps (toM Rect ent)
+open NTV.PolyG (Canon coefAt fromRaw)
+
+/-- the coefficients of `elt basis a` are those of `Σ_i a_i ω_i` -/
+theorem elt_coef (basis : QMat) (a : List Int) (c : Nat) (hc : c < basis.length) :
+    coefAt (elt basis a) c = ∑ i ∈ Finset.range basis.length, ((a.getD i 0 : Int) : Rat) * ent basis i c := by
+  unfold elt comb coefAt
+  rw [NTV.PolyG.getD_fromRaw]
+  simp only [List.getD_eq_getElem?_getD, List.getElem?_map, List.getElem?_range hc, Option.map_some,
+    Option.getD_some]
+  apply Finset.sum_congr rfl
+  intro i _
+  cases a[i]? <;> simp
+
+/-- **(1a)** the table returned by `get_mult_table` is `n × n × n` and its entries are the (integral)
+coordinates of the products of the basis vectors: `ω_i ⋆ ω_j = Σ_k t[i][j][k] · ω_k` -/
+theorem table_entries (f : List Int) (basis : QMat) (n : Nat) (hf : Canon f) (hlen : f.length = n + 1)
+    (hn : 1 ≤ n) (hr : Rect n n basis) (hdet : (toM n n basis).det ≠ 0) (t : Table)
+    (h : getMultTable basis f = .ok t) : IsTable f basis n t := by
+  have S : Setup f basis n := ⟨hf, hlen, hn, hr, hdet⟩
+  by_cases hall : AllInt f basis n
+  · rw [S.getMultTable_ok hall] at h
+    injection h with h
+    subst h
+    exact S.isTable_tableOf hall
+  · rw [S.getMultTable_err hall] at h
+    cases h
+
+/-- **(1b)** `get_mult_table` succeeds exactly when the ℤ-span of the basis is closed under
+multiplication; otherwise the integrality assertion fires (and nothing else can happen) -/
+theorem table_exists_iff_closed (f : List Int) (basis : QMat) (n : Nat) (hf : Canon f)
+    (hlen : f.length = n + 1) (hn : 1 ≤ n) (hr : Rect n n basis) (hdet : (toM n n basis).det ≠ 0) :
+    (Closed f basis n → ∃ t, getMultTable basis f = .ok t) ∧
+    (¬ Closed f basis n → getMultTable basis f = .error "panic assert") := by
+  have S : Setup f basis n := ⟨hf, hlen, hn, hr, hdet⟩
+  rw [S.closed_iff]
+  exact ⟨fun h => ⟨_, S.getMultTable_ok h⟩, S.getMultTable_err⟩
+
+/-- **(2)** `MultTable::mul` agrees with the arithmetic of ℚ[x]/(f) on coordinate vectors:
+`(Σ a_i ω_i) ⋆ (Σ b_j ω_j) = Σ c_k ω_k` for the returned `c` -/
+theorem tmul_agrees (f : List Int) (basis : QMat) (n : Nat) (hf : Canon f) (hlen : f.length = n + 1)
+    (hn : 1 ≤ n) (hr : Rect n n basis) (hdet : (toM n n basis).det ≠ 0) (t : Table)
+    (ht : IsTable f basis n t) (a b : List Int) (ha : a.length = n) (hb : b.length = n) :
+    ∃ c, tmul t a b = .ok c ∧ c.length = n ∧ mul f (elt basis a) (elt basis b) = .ok (elt basis c) := by
+  have S : Setup f basis n := ⟨hf, hlen, hn, hr, hdet⟩
+  refine ⟨tmulList t n a b, tmul_eq t a b ht.1 ha hb, by simp [tmulList], ?_⟩
+  apply S.mul_comb
+  rw [vecQ_map_cast, vecQ_map_cast, vecQ_map_cast, vecZ_tmulList]
+  exact (S.ctx t ht).mul_agrees _ _
+
+/-- **(3a)** `regular t a` (the matrix built by `norm` and `inv`) is the matrix of the multiplication by
+`a` in the basis ω, for row vectors: `a ⋆ (Σ x_j ω_j) = Σ y_k ω_k` whenever `y = x ᵥ* regular t a`
+(for all rational coordinate vectors `x`) -/
+theorem regular_is_mult_matrix (f : List Int) (basis : QMat) (n : Nat) (hf : Canon f)
+    (hlen : f.length = n + 1) (hn : 1 ≤ n) (hr : Rect n n basis) (hdet : (toM n n basis).det ≠ 0)
+    (t : Table) (ht : IsTable f basis n t) (a : List Int) (x y : List Rat)
+    (hy : (fun k : Fin n => y.getD k 0) = (fun j : Fin n => x.getD j 0) ᵥ* toM n n (regular t a)) :
+    Rect n n (regular t a) ∧ mul f (elt basis a) (comb basis x) = .ok (comb basis y) := by
+  have S : Setup f basis n := ⟨hf, hlen, hn, hr, hdet⟩
+  refine ⟨regular_rect t a ht.1, ?_⟩
+  apply S.mul_comb
+  rw [vecQ_map_cast]
+  rw [toM_regular t a ht.1] at hy
+  show _ = NTV.TableAbs.psi _ _ (fun k : Fin n => y.getD k 0)
+  rw [hy]
+  exact (S.ctx t ht).reg_is_mult _ _
+
+/-- **(3b)** `MultTable::trace` and `MultTable::norm` return the trace and the determinant of that
+matrix (the truncation `to_integer` in `norm` is exact) -/
+theorem trace_norm (f : List Int) (basis : QMat) (n : Nat) (hf : Canon f) (hlen : f.length = n + 1)
+    (hn : 1 ≤ n) (hr : Rect n n basis) (hdet : (toM n n basis).det ≠ 0) (t : Table)
+    (ht : IsTable f basis n t) (a : List Int) (ha : a.length = n) :
+    ∃ tr nm : Int, ttrace t a = .ok tr ∧ tnorm t a = .ok nm ∧
+      ((tr : Int) : Rat) = Matrix.trace (toM n n (regular t a)) ∧
+      ((nm : Int) : Rat) = Matrix.det (toM n n (regular t a)) := by
+  have S : Setup f basis n := ⟨hf, hlen, hn, hr, hdet⟩
+  refine ⟨_, _, ttrace_eq t a ht.1 (by omega), tnorm_eq t a ht.1 (by omega), ?_, ?_⟩
+  · rw [(S.ctx t ht).trace_eq, toM_regular t a ht.1]
+    simp [Matrix.trace, NTV.TableAbs.castM]
+  · rw [toM_regular t a ht.1, NTV.TableAbs.det_castM]
+
+/-- **(3c)** the trace is additive -/
+theorem trace_additive (t : Table) (n : Nat) (ht : t.length = n) (a b : List Int) (ha : a.length = n)
+    (hb : b.length = n) :
+    ∃ ta tb : Int, ttrace t a = .ok ta ∧ ttrace t b = .ok tb ∧
+      ttrace t (List.zipWith (· + ·) a b) = .ok (ta + tb) := by
+  refine ⟨_, _, ttrace_eq t a ht (by omega), ttrace_eq t b ht (by omega), ?_⟩
+  rw [ttrace_eq t _ ht (by simp [ha, hb])]
+  congr 1
+  rw [← Finset.sum_add_distrib]
+  apply Finset.sum_congr rfl
+  intro i _
+  rw [← Finset.sum_add_distrib]
+  apply Finset.sum_congr rfl
+  intro j _
+  have : vecZ (List.zipWith (· + ·) a b) n i = vecZ a n i + vecZ b n i := by
+    have h1 : (i : Nat) < a.length := by rw [ha]; exact i.2
+    have h2 : (i : Nat) < b.length := by rw [hb]; exact i.2
+    simp [vecZ, List.getD_eq_getElem?_getD, List.getElem?_zipWith, List.getElem?_eq_getElem h1,
+      List.getElem?_eq_getElem h2]
+  rw [this]; ring
+
+/-- **(3d)** the norm is multiplicative: `norm (a ⋆ b) = norm a · norm b` -/
+theorem norm_multiplicative (f : List Int) (basis : QMat) (n : Nat) (hf : Canon f)
+    (hlen : f.length = n + 1) (hn : 1 ≤ n) (hr : Rect n n basis) (hdet : (toM n n basis).det ≠ 0)
+    (t : Table) (ht : IsTable f basis n t) (a b : List Int) (ha : a.length = n) (hb : b.length = n) :
+    ∃ (c : List Int) (na nb : Int), tmul t a b = .ok c ∧ tnorm t a = .ok na ∧ tnorm t b = .ok nb ∧
+      tnorm t c = .ok (na * nb) := by
+  have S : Setup f basis n := ⟨hf, hlen, hn, hr, hdet⟩
+  refine ⟨tmulList t n a b, _, _, tmul_eq t a b ht.1 ha hb, tnorm_eq t a ht.1 (by omega),
+    tnorm_eq t b ht.1 (by omega), ?_⟩
+  rw [tnorm_eq t _ ht.1 (by simp [tmulList]), vecZ_tmulList, (S.ctx t ht).det_mul]
+
+/-- **(4)** `MultTable::inv`. The routine reads row 0 of the inverse matrix, which is the coordinate
+vector of the inverse because `ω_0 = 1` (hypothesis `h0`: the first basis row is `1, 0, …, 0`, as for
+every HNF basis of an order). For `a` of non-zero norm it returns `(b, d)` with `d = |norm a|` and
+`a ⋆ b = d`, both through the table (`d·ω_0`) and in ℚ[x]/(f) (the constant `d`); the truncations
+`to_integer` are exact (this is part of the statement: `b` is integral and `a ⋆ b = d` exactly). -/
+theorem tinv_spec (f : List Int) (basis : QMat) (n : Nat) (hf : Canon f) (hlen : f.length = n + 1)
+    (hn : 1 ≤ n) (hr : Rect n n basis) (hdet : (toM n n basis).det ≠ 0) (t : Table)
+    (ht : IsTable f basis n t) (h0 : basis.getD 0 [] = 1 :: List.replicate (n - 1) 0)
+    (a : List Int) (ha : a.length = n) (nm : Int) (hnm : tnorm t a = .ok nm) (hne : nm ≠ 0) :
+    ∃ b : List Int, tinv t a = .ok (b, (nm.natAbs : Int)) ∧ b.length = n ∧
+      tmul t a b = .ok ((nm.natAbs : Int) :: List.replicate (n - 1) 0) ∧
+      mul f (elt basis a) (elt basis b) = .ok [(((nm.natAbs : Int) : Int) : Rat)] := by
+  have S : Setup f basis n := ⟨hf, hlen, hn, hr, hdet⟩
+  rw [tnorm_eq t a ht.1 (by omega)] at hnm
+  injection hnm with hnm
+  subst hnm
+  exact S.tinv_core t ht a ha h0 hne
+
+/-- **(4′)** when `f` is irreducible over ℚ (ℚ[x]/(f) is a field) every non-zero `a` has a non-zero
+norm, so `inv` succeeds for every non-zero `a` -/
+theorem norm_ne_zero_of_irreducible (f : List Int) (basis : QMat) (n : Nat) (hf : Canon f)
+    (hlen : f.length = n + 1) (hn : 1 ≤ n) (hr : Rect n n basis) (hdet : (toM n n basis).det ≠ 0)
+    (t : Table) (ht : IsTable f basis n t) (hirr : Irreducible (modulus f))
+    (a : List Int) (ha : a.length = n) (hne : ∃ i < n, a.getD i 0 ≠ 0) :
+    ∃ nm : Int, tnorm t a = .ok nm ∧ nm ≠ 0 := by
+  have S : Setup f basis n := ⟨hf, hlen, hn, hr, hdet⟩
+  have := noZeroDivisors_of_irreducible hirr
+  refine ⟨_, tnorm_eq t a ht.1 (by omega), ?_⟩
+  apply (S.ctx t ht).det_ne_zero
+  intro h
+  obtain ⟨i, hi, hai⟩ := hne
+  exact hai (congrFun h ⟨i, hi⟩)
+
+/-! ### non-vacuity: ℤ[i], a non-closed lattice, and the maximal order of Dedekind's cubic field -/
+
+/-- ℤ[i]: `f = x² + 1`, basis 1, θ -/
+example : getMultTable [[1, 0], [0, 1]] [1, 0, 1] = .ok [[[1, 0], [0, 1]], [[0, 1], [-1, 0]]] := by
+  decide +kernel
+
+/-- the lattice ℤ + ℤ·θ/2 is not closed under multiplication -/
+example : getMultTable [[1, 0], [0, 1/2]] [1, 0, 1] = .error "panic assert" := by decide +kernel
+
+theorem gauss_det : (toM 2 2 ([[1, 0], [0, 1]] : QMat)).det ≠ 0 := by
+  have h := NTV.LinAlg.determinant_eq ([[1, 0], [0, 1]] : QMat) 2 ⟨rfl, by simp⟩
+  have h2 : NTV.LinAlg.determinant ([[1, 0], [0, 1]] : QMat) = .ok 1 := by decide +kernel
+  rw [h2] at h
+  injection h with h
+  rw [← h]; norm_num
+
+theorem gauss_isTable : IsTable [1, 0, 1] [[1, 0], [0, 1]] 2 [[[1, 0], [0, 1]], [[0, 1], [-1, 0]]] :=
+  table_entries [1, 0, 1] [[1, 0], [0, 1]] 2 (by intro _; simp) rfl (by norm_num) ⟨rfl, by simp⟩ gauss_det _
+    (by decide +kernel)
+
+example : tmul [[[1, 0], [0, 1]], [[0, 1], [-1, 0]]] [2, 3] [4, 1] = .ok [5, 14] := by decide +kernel
+example : tnorm [[[1, 0], [0, 1]], [[0, 1], [-1, 0]]] [2, 3] = .ok 13 := by decide +kernel
+example : ttrace [[[1, 0], [0, 1]], [[0, 1], [-1, 0]]] [2, 3] = .ok 4 := by decide +kernel
+example : tinv [[[1, 0], [0, 1]], [[0, 1], [-1, 0]]] [2, 3] = .ok ([2, -3], 13) := by decide +kernel
+
+/-- the hypotheses of `tinv_spec` are satisfiable (2 + 3i in ℤ[i]) -/
+example : ∃ b : List Int, tinv [[[1, 0], [0, 1]], [[0, 1], [-1, 0]]] [2, 3] = .ok (b, 13) ∧ b.length = 2 ∧
+    tmul [[[1, 0], [0, 1]], [[0, 1], [-1, 0]]] [2, 3] b = .ok [13, 0] ∧
+    mul [1, 0, 1] (elt [[1, 0], [0, 1]] [2, 3]) (elt [[1, 0], [0, 1]] b) = .ok [13] :=
+  tinv_spec [1, 0, 1] [[1, 0], [0, 1]] 2 (by intro _; simp) rfl (by norm_num) ⟨rfl, by simp⟩ gauss_det _
+    gauss_isTable rfl [2, 3] rfl 13 (by decide +kernel) (by norm_num)
+
+/-- the maximal order of Dedekind's cubic field: `f = x³ − x² − 2x − 8`, basis 1, θ, (θ + θ²)/2 -/
+example : getMultTable [[1, 0, 0], [0, 1, 0], [0, 1/2, 1/2]] [-8, -2, -1, 1] =
+    .ok [[[1, 0, 0], [0, 1, 0], [0, 0, 1]], [[0, 1, 0], [0, -1, 2], [4, 0, 2]],
+      [[0, 0, 1], [4, 0, 2], [6, 2, 3]]] := by decide +kernel
+
+theorem dedekind_det : (toM 3 3 ([[1, 0, 0], [0, 1, 0], [0, 1/2, 1/2]] : QMat)).det ≠ 0 := by
+  have h := NTV.LinAlg.determinant_eq ([[1, 0, 0], [0, 1, 0], [0, 1/2, 1/2]] : QMat) 3 ⟨rfl, by simp⟩
+  have h2 : NTV.LinAlg.determinant ([[1, 0, 0], [0, 1, 0], [0, 1/2, 1/2]] : QMat) = .ok (1/2) := by
+    decide +kernel
+  rw [h2] at h
+  injection h with h
+  rw [← h]; norm_num
+
+theorem dedekind_isTable : IsTable [-8, -2, -1, 1] [[1, 0, 0], [0, 1, 0], [0, 1/2, 1/2]] 3
+    [[[1, 0, 0], [0, 1, 0], [0, 0, 1]], [[0, 1, 0], [0, -1, 2], [4, 0, 2]], [[0, 0, 1], [4, 0, 2], [6, 2, 3]]] :=
+  table_entries [-8, -2, -1, 1] [[1, 0, 0], [0, 1, 0], [0, 1/2, 1/2]] 3 (by intro _; simp) rfl (by norm_num)
+    ⟨rfl, by simp⟩ dedekind_det _ (by decide +kernel)
+
+example : tinv [[[1, 0, 0], [0, 1, 0], [0, 0, 1]], [[0, 1, 0], [0, -1, 2], [4, 0, 2]],
+    [[0, 0, 1], [4, 0, 2], [6, 2, 3]]] [1, 2, 3] = .ok ([-74, -10, 23], 404) := by decide +kernel
 
 end NTV.C14
